@@ -8,7 +8,7 @@
    ObjQueueMax).  Time: local steps take no time, waiting does (maximal progress); the runtime's scheduling latency is
    the slack of the wall-clock monitor, not part of the model. *)
 From Coq Require Import List NArith ZArith.
-From TarsV Require Import Base.Hex Gen.C09Consts Conc.CallLife Conc.CallLifeProofs Conc.TimeWheel Conc.TimeWheelProofs.
+From TarsV Require Import Base.Hex Gen.C09Consts Conc.CallLife Conc.CallLifeProofs Conc.TraceSound Conc.TimeWheel Conc.TimeWheelProofs.
 Import ListNotations.
 Open Scope N_scope.
 
@@ -145,6 +145,22 @@ Theorem C09_receiver_released : forall c s r x j, reach c s -> nth_error (rcvs s
   now s <= r_t0 x + readT c.
 Proof. exact CallLifeProofs.receiver_released. Qed.
 Print Assumptions C09_receiver_released.
+
+(* ---------- trace validation is sound for the model ----------
+   [project] observes a run of the model at the harness's observation points (pre-filter = registration, post-filter =
+   cleanup, return with the counters as they are then, peer receive = the sender's write, peer send); [arun]/[accepts] is
+   the specification machine that validates the implementation's event traces.  Every run of the model is accepted event
+   by event, and completely once every started call has returned: a rejected implementation trace is therefore a
+   behaviour no execution of the model has. *)
+Theorem C09_trace_sound : forall c ls s, run c init ls = Some s ->
+  exists a, arun (mkast [] 0 0 [] [] []) (project c init ls) = Some a /\ Sim s a.
+Proof. exact TraceSound.trace_sound. Qed.
+Print Assumptions C09_trace_sound.
+
+Theorem C09_trace_accepted : forall c ls s, run c init ls = Some s ->
+  (forall i k, nth_error (calls s) i = Some k -> k_pc k = Returned) -> accepts (project c init ls) = true.
+Proof. exact TraceSound.trace_accepted. Qed.
+Print Assumptions C09_trace_accepted.
 
 (* ---------- the time wheel tolerance (uses the accuracy constant regenerated from the tree) ---------- *)
 Theorem C09_wheel_not_early : forall T, 19 * T <= 20 * lo T.
